@@ -172,3 +172,24 @@ Fixpoint http_effective (env : features) (h : list pstep) : list (option feature
   | PInitWith _ :: r => http_effective env r
   | POp :: r => Some env :: http_effective env r
   end.
+
+(** ** The observables of the property
+
+    "Indistinguishable" is about everything a client can see of a response.  The DIFFERENTIAL clause
+    (the real code on (S, Features = F) against the real code on the physically reduced schema with
+    every feature) compares all of them, the message texts byte for byte — a message that names a
+    gated element (e.g. a suggestion "did you mean ..?") tells the client that the element exists.
+    The MODEL clause (model against each side) predicts everything except the message texts, so a
+    rewording that applies to both sides alike raises no alarm. *)
+Inductive observable :=
+| ObsVerdict              (* does validation accept the document *)
+| ObsErrorLocations       (* where validation / execution errors point, and their paths *)
+| ObsErrorMessages        (* the texts of validation and execution errors *)
+| ObsData                 (* the response data, key order included *)
+| ObsIntrospection        (* every introspection answer: listings, by-name lookups, descriptions *)
+| ObsResolverCalls.       (* which resolvers were invoked (none of a deleted element) *)
+
+Definition differential_observables : list observable :=
+  [ObsVerdict; ObsErrorLocations; ObsErrorMessages; ObsData; ObsIntrospection; ObsResolverCalls].
+Definition model_observables : list observable :=
+  [ObsVerdict; ObsErrorLocations; ObsData; ObsIntrospection; ObsResolverCalls].
